@@ -13,6 +13,8 @@ void cpps_set_nonce(void *h, const unsigned char *n, size_t len);
 void cpps_set_counter(void *h, uint64_t n);
 int cpps_encrypt(void *h, unsigned char *c, const unsigned char *m, size_t len, const unsigned char *ad, size_t adlen);
 int cpps_decrypt(void *h, unsigned char *m, const unsigned char *c, size_t len, const unsigned char *ad, size_t adlen);
+int cpps_encrypt_ba(void *h, unsigned char *c, const unsigned char *m, size_t len, const unsigned char *ad, size_t adlen, int form);
+int cpps_decrypt_ba(void *h, unsigned char *m, const unsigned char *c, size_t len, const unsigned char *ad, size_t adlen, int form);
 size_t cpps_key_size(void *h);
 #ifdef __cplusplus
 }
